@@ -392,3 +392,19 @@ Definition plan_steps (p : list plan_item) : list nat :=
 Definition run_observe (g : nat -> Z) (rows ops : nat) (den : positive) (targets : list nat) :=
   let p := int_plan den 0 targets in
   (p, int_observe g rows ops (plan_steps p)).
+
+(* ----------------------------------- which time each internal step sees *)
+(* SIntegrator.integrate: the explicit / implicit integrators hand
+   (self.t, N) to <stepper>.run, whose step i is taken at t + i*dt, and then
+   do self.t += dt*N; RouchonSODE.integrate calls _step(self.t, ...) and does
+   self.t += dt after every sub-step.  In units of dt, starting from
+   integrator time pos: one integrate() of N sub-steps sees the times
+   pos, pos+1, ..., pos+N-1 and leaves the integrator at pos+N. *)
+Fixpoint step_times (pos : nat) (steps : list nat) : list (list nat) :=
+  match steps with
+  | [] => []
+  | N :: r => seq pos N :: step_times (pos + N) r
+  end.
+
+Definition times_observe (den : positive) (targets : list nat) :=
+  step_times 0 (plan_steps (int_plan den 0 targets)).
